@@ -54,20 +54,12 @@ class History:
         self.blocks = {}    # bid -> [txid]
         self.spenders = {}  # (tx, vout) -> set(txid)
         self.prev = {}      # bid -> previous bid
-        self.shown = set()  # transactions delivered to the wallet or contained in a block of a chain whose tip it accepted
         cur = None
         curb = None
         for l in lines:
             f = l.split()
             if not f:
                 continue
-            if f[0] == "U":
-                self.shown.add(f[1])
-            elif f[0] == "P" and f[2] == "ok":
-                b = f[1]
-                while b in self.blocks and b not in ("0",):
-                    self.shown.update(self.blocks[b])
-                    b = self.prev.get(b, "0")
             if f[0] == "A":
                 self.owned.add(f[1])
             elif f[0] == "B":
@@ -96,6 +88,22 @@ class History:
                 c.pop()
         return c
 
+    def shown_at(self, upto):
+        """transactions delivered to the wallet, or contained in a block of a chain whose tip it accepted, in the first `upto` lines"""
+        shown = set()
+        for l in self.lines[:upto]:
+            f = l.split()
+            if not f:
+                continue
+            if f[0] == "U":
+                shown.add(f[1])
+            elif f[0] == "P" and len(f) > 2 and f[2] == "ok":
+                b = f[1]
+                while b in self.blocks and b != "0":
+                    shown.update(self.blocks[b])
+                    b = self.prev.get(b, "0")
+        return shown
+
     def out_owned(self, op):
         t = self.tx.get(op[0])
         if not t or int(op[1]) >= len(t[2]):
@@ -110,6 +118,7 @@ class History:
             onchain.update(self.blocks.get(b, []))
         if tid in onchain:
             return "pending-while-mined"
+        shown = self.shown_at(nline)
         seen = set()
 
         def dead_cause(t):
@@ -124,7 +133,7 @@ class History:
                 if not parent_on:
                     r = dead_cause(op[0])
                     if r:
-                        if op[0] not in self.shown:
+                        if op[0] not in shown:
                             return "unseen"      # the wallet was never shown the parent transaction
                         # the dependency itself runs over this output: registered only when it pays the wallet
                         return r if (self.out_owned(op) or r == "unseen") else "foreign"
